@@ -2,7 +2,7 @@
    Property theorems only; each closed by [exact] of a lemma proved in proofs/.
    All statements are for ALL strings, ALL positions in Z and ALL option sets.
 
-   Reading guide (proofs/HtmlActionsProofs.v, HtmlC16Proofs.v, HtmlScanProofs.v):
+   Reading guide (proofs/HtmlActionsProofs.v, HtmlC16Proofs.v, HtmlScanProofs.v, HtmlSelectFull.v):
      tag_range_wf code closing name r   r runs from `<` to `>` inside code, name right after `<` / `</`
      attrs_sorted code lo hi l          tokens inside [lo, hi], in order, disjoint, and the name / value
                                         strings are exactly the slices of CODE at the reported ranges
@@ -10,17 +10,26 @@
      tok_in lo hi r                     lo <= fst r < snd r <= hi
      next_pred pos e / prev_pred pos e  open or self-closing tag with end > pos / start < pos
      select_target                      next: the FIRST tag with next_pred; previous: the LAST tag with prev_pred
+     tag_sel code e                     THE SPEC of the selection model of tag event e (HtmlSelectFull.v, 40 lines):
+                                        start, end, and the range list
+                                          tag name :: squash (for each attribute token of get_attributes, in order:
+                                            [name start, value end)   -- or [name start, name end) without value --
+                                            unquoted value            (strip: one leading quote and the same quote at
+                                                                       the end, or one `{`..`}` pair, left out)
+                                            for `class`: words (unquoted value))
+                                        squash = what push_range keeps: no empty range, no range equal to the one
+                                        just before it (the value of class="a" and its only word)
+     words s off                        ranges of the maximal runs of non-space characters of s (C17_html_words_spec
+                                        and C17_html_words_unique pin this down independently of the recursion)
 
-   Proved for the ranges of select_item_html: the model spans the selected tag, the first range
-   is the tag name, every range is non-empty and lies inside the tag after `<`; value_range never
-   raises.  NOT proved as a theorem (covered by the ground-truth oracle on generated documents and
-   by correspondence): that the range LIST is exactly name, then per attribute [name..value end),
-   unquoted value, class tokens -- this is the definition of selection_ranges in model/HtmlActions.v,
-   tied to the code by correspondence; and that token_list yields exactly the maximal runs of
-   non-space characters (checked directly against an independent word splitter on every run). *)
+   C17_html_select_ranges is the full statement for select_item_html: an equation between the model and the
+   spec, for every string, position, direction and option set.  The attribute tokens inside the spec are those of
+   get_attributes; C17_html_get_open_tag says they slice the source to names and values as written
+   (attrs_sorted).  On text of the C09 level-B grammar props/C17HtmlText.v computes everything from the
+   written attributes. *)
 From Coq Require Import List NArith ZArith.
 From Emmet Require Import lib.Base gen.GenHtml model.HtmlScan model.HtmlMatch model.HtmlActions
-  proofs.HtmlScanProofs proofs.HtmlFoldProofs proofs.HtmlC16Proofs proofs.HtmlActionsProofs.
+  proofs.HtmlScanProofs proofs.HtmlFoldProofs proofs.HtmlC16Proofs proofs.HtmlActionsProofs proofs.HtmlSelectFull.
 Import ListNotations.
 Local Open Scope Z_scope.
 
@@ -73,8 +82,8 @@ Theorem C17_html_previous_item :
 Proof. exact prev_item_go_spec. Qed.
 Print Assumptions C17_html_previous_item.
 
-(* select_html_ranges on every string *)
-Theorem C17_html_select_item_partial :
+(* select_html_ranges on every string: bounds (kept; the equation below is the full statement) *)
+Theorem C17_html_select_item :
   forall (o : opts) (code : str) (pos : Z) (is_prev : bool),
     exists r, select_item_html o code pos is_prev = Ok r /\
       match select_target pos is_prev (fst (scan (o_special o) code)) with
@@ -87,7 +96,56 @@ Theorem C17_html_select_item_partial :
             Forall (tok_in (Z.of_N (ev_start e) + 1) (Z.of_N (ev_end e))) (sel_ranges m)
       end.
 Proof. exact select_item_html_wf. Qed.
-Print Assumptions C17_html_select_item_partial.
+Print Assumptions C17_html_select_item.
+
+(* THE FULL STATEMENT: the selection model is exactly the spec [tag_sel] of the selected tag *)
+Theorem C17_html_select_ranges :
+  forall (o : opts) (code : str) (pos : Z) (is_prev : bool),
+    select_item_html o code pos is_prev =
+    Ok (option_map (tag_sel code) (select_target pos is_prev (fst (scan (o_special o) code)))).
+Proof. exact select_item_html_eq. Qed.
+Print Assumptions C17_html_select_ranges.
+
+(* ... over ALL ordered event lists, not only scanner outputs *)
+Theorem C17_html_select_ranges_events :
+  forall (code : str) (evs : list event) (lo : N) (pos : Z) (is_prev : bool),
+    events_ordered lo evs ->
+    select_item_html_of code (evs, None) pos is_prev = Ok (option_map (tag_sel code) (select_target pos is_prev evs)).
+Proof. exact select_item_html_of_eq. Qed.
+Print Assumptions C17_html_select_ranges_events.
+
+(* ... and the loop of get_tag_selection_model over ALL attribute token lists whose values are
+   non-empty slices of the tag source: one push_range per spec entry, in order *)
+Theorem C17_html_selection_loop :
+  forall (tag_src : str) (st : Z) (attrs : list attr) (ranges : list range),
+    Forall (tok_ok tag_src) attrs ->
+    selection_ranges tag_src st attrs ranges = Ok (fold_left push_range (flat_map (attr_ranges st) attrs) ranges).
+Proof. exact selection_ranges_eq. Qed.
+Print Assumptions C17_html_selection_loop.
+
+Theorem C17_html_push_range_squash :
+  forall (l ranges : list range), fold_left push_range l ranges = ranges ++ squash (last_range ranges) l.
+Proof. exact fold_push_squash. Qed.
+Print Assumptions C17_html_push_range_squash.
+
+(* class tokens: token_list is [words], and [words] is the list of maximal non-space runs *)
+Theorem C17_html_token_list_words : forall (v : str) (off : Z), token_list v off = words v off.
+Proof. exact token_list_words. Qed.
+Print Assumptions C17_html_token_list_words.
+
+Theorem C17_html_words_spec :
+  forall (s : str) (off : Z),
+    separated off (words s off) /\
+    Forall (fun r => snd r <= off + Z.of_nat (length s)) (words s off) /\
+    forall i c, nth_error s i = Some c -> (covers (words s off) (off + Z.of_nat i) <-> is_space c = false).
+Proof. exact words_spec. Qed.
+Print Assumptions C17_html_words_spec.
+
+Theorem C17_html_words_unique :
+  forall (l1 l2 : list range) (lo : Z),
+    separated lo l1 -> separated lo l2 -> (forall i, covers l1 i <-> covers l2 i) -> l1 = l2.
+Proof. exact separated_covers_unique. Qed.
+Print Assumptions C17_html_words_unique.
 
 (* class tokens lie inside the value they were split from *)
 Theorem C17_html_token_list_bounds :
@@ -102,3 +160,12 @@ Example C17_html_nonvacuous :
   exists m, select_item_html default_opts s 0 false = Ok (Some m) /\
     sel_ranges m = [(1, 3); (4, 23); (11, 22); (11, 15); (16, 22)].
 Proof. eexists. vm_compute. split; reflexivity. Qed.
+
+(* the spec on the same tag: the value range and the only class token coincide for class="item" and are
+   reported once (squash); an empty value yields no value range *)
+Example C17_html_spec_nonvacuous :
+  let s := [60;97;32;99;108;97;115;115;61;34;120;34;32;98;61;34;34;32;99;62]%N in   (* <a class="x" b="" c> *)
+  let e := mkEv [97]%N EOpen 0 20 in
+  select_target 0 false (fst (scan (o_special default_opts) s)) = Some e /\
+  sel_ranges (tag_sel s e) = [(1, 2); (3, 12); (10, 11); (13, 17); (18, 19)].
+Proof. vm_compute. split; reflexivity. Qed.
